@@ -1251,6 +1251,9 @@ func extRandIntn(fr *frame, a []value) value {
 	if c, ok := n.(int); ok && c <= 0 {
 		panic(targetPanic{iface{t: types.Typ[types.String], v: "invalid argument to Intn"}})
 	}
+	if fr.i.px.concrete {
+		panic(unsupported("math/rand in a concrete translator-validation run"))
+	}
 	t := fr.i.px.newInput("rand.Intn", "int", 64)
 	assume(fr, smt.BAnd(smt.Cmp(smt.OpSle, smt.Const(64, 0), t), smt.Cmp(smt.OpSlt, t, toTerm(n))))
 	return t
